@@ -15,6 +15,7 @@ def shapes_for(sig: inspect.Signature, values: Dict[str, str], *, skip: Sequence
     """
 
     params = [p for p in sig.parameters.values() if p.name not in skip and p.name != "self"]
+    sig = sig.replace(parameters=params)
     names = [p.name for p in params if p.name in values]
     required = [p.name for p in params if p.default is inspect._empty and p.kind in (p.POSITIONAL_ONLY, p.POSITIONAL_OR_KEYWORD, p.KEYWORD_ONLY)]
     for r in required:
